@@ -334,7 +334,8 @@ Qed.
 Lemma compile_arg_inv : forall t cmp_t st a st', compile_arg t cmp_t st = Ok (a, st') ->
   (exists v ty ty0, t = FVar v ty (Some FCns) /\ ty = Some ty0 /\
                     a = CConsumer (CXVar CCns (new_id v) (compile_ty ty0)) /\ st' = st) \/
-  (exists ty0 c, fterm_type t = Some ty0 /\ cmp_t (compile_ty ty0) st = Ok (c, st') /\ a = CProducer c).
+  (match t with FVar _ _ (Some FCns) => False | _ => True end /\
+   exists ty0 c, fterm_type t = Some ty0 /\ cmp_t (compile_ty ty0) st = Ok (c, st') /\ a = CProducer c).
 Proof.
   intros t cmp_t st a st' H.
   assert (Hgen : (dom ty <- mlift (expect_ty (fterm_type t)); dom p <- cmp_t (compile_ty ty); mret (CProducer p)) st
@@ -342,8 +343,8 @@ Proof.
                  exists ty0 c, fterm_type t = Some ty0 /\ cmp_t (compile_ty ty0) st = Ok (c, st') /\ a = CProducer c).
   { intros G. minv G. apply mlift_inv in E. destruct E as [E ->]. apply expect_ty_inv in E. minv G.
     apply mret_inv in G. destruct G; subst. eauto. }
-  unfold compile_arg in H. destruct t; try (right; apply Hgen; exact H).
-  destruct chi as [[|]|]; try (right; apply Hgen; exact H).
+  unfold compile_arg in H. destruct t; try (right; split; [exact I | apply Hgen; exact H]).
+  destruct chi as [[|]|]; try (right; split; [exact I | apply Hgen; exact H]).
   left. minv H. apply mlift_inv in E. destruct E as [E ->]. apply expect_ty_inv in E.
   apply mret_inv in H. destruct H; subst. eauto 8.
 Qed.
@@ -360,3 +361,151 @@ Proof.
   intros wcf cont pl x names ctx body r st l st' H. simpl in H. minv H. minv H. apply mret_inv in H. destruct H; subst.
   eauto 8.
 Qed.
+
+(* ---------- scopes: a list of Core bindings, first match by name ---------- *)
+Definition gl (G : list cbinding) (x : cident) : option cbinding :=
+  find (fun b => cident_eqb (cbvar b) x) G.
+Lemma gl_cons : forall b0 G x, gl (b0 :: G) x = if cident_eqb (cbvar b0) x then Some b0 else gl G x.
+Proof. reflexivity. Qed.
+Lemma gl_name : forall G x b, gl G x = Some b -> cbvar b = x.
+Proof. intros G x b H. unfold gl in H. apply find_some in H. destruct H as [_ H]. apply cid_eqb_eq in H. exact H. Qed.
+Lemma gl_In : forall G x b, gl G x = Some b -> In b G.
+Proof. intros G x b H. unfold gl in H. apply find_some in H. tauto. Qed.
+Lemma gl_app : forall A G x b, gl (A ++ G) x = Some b -> In b A \/ gl G x = Some b.
+Proof.
+  induction A as [|a A IH]; intros G x b H; simpl in *; [right; exact H|].
+  destruct (cident_eqb (cbvar a) x).
+  - injection H as H. left. left. exact H.
+  - destruct (IH _ _ _ H) as [H1|H1]; [left; right; exact H1 | right; exact H1].
+Qed.
+
+Definition var_ok (G : list cbinding) (v : fname) (ty : option fty) (chi : cchi) : bool :=
+  match ty with
+  | Some ty0 =>
+      match gl G (new_id v) with
+      | Some b => cbinding_eqb b (mkcb (new_id v) chi (compile_ty ty0))
+      | None => false
+      end
+  | None => false
+  end.
+Lemma var_ok_inv : forall G v ty chi, var_ok G v ty chi = true ->
+  exists ty0, ty = Some ty0 /\ gl G (new_id v) = Some (mkcb (new_id v) chi (compile_ty ty0)).
+Proof.
+  intros G v ty chi H. unfold var_ok in H. destruct ty as [ty0|]; [|discriminate].
+  destruct (gl G (new_id v)) as [b|] eqn:E; [|discriminate]. apply cbinding_eqb_eq in H. subst b. eauto.
+Qed.
+
+Definition is_cns_var (t : fterm) : bool := match t with FVar _ _ (Some FCns) => true | _ => false end.
+
+(* well-scopedness with kinds and types: every occurrence of a name carries the chirality and the
+   (compiled) type of the binding in scope *)
+Fixpoint ws (G : list cbinding) (t : fterm) : bool :=
+  let ws_arg := fun (y : fterm) =>
+    match y with
+    | FVar v ty (Some FCns) => var_ok G v ty CCns
+    | _ => ws G y
+    end in
+  let ws_cls := fun (c : fclause) =>
+    match c with FClause _ _ _ ctx body => ws (compile_ctx ctx ++ G) body end in
+  match t with
+  | FVar v ty _ => var_ok G v ty CPrd
+  | FLit _ => true
+  | FOp a _ b => ws G a && ws G b
+  | FIfC _ a b t1 t2 _ => ws G a && (match b with Some b' => ws G b' | None => true end) && ws G t1 && ws G t2
+  | FPrint _ a next _ => ws G a && ws G next
+  | FLet v vty bound body _ => ws G bound && ws (mkcb (new_id v) CPrd (compile_ty vty) :: G) body
+  | FCall _ args _ => forallb ws_arg args
+  | FCtor _ args _ => forallb ws_arg args
+  | FDtor scrut _ _ args _ => ws G scrut && forallb ws_arg args
+  | FCase scrut _ cls _ => ws G scrut && forallb ws_cls cls
+  | FNew cls _ => forallb ws_cls cls
+  | FLabel l t' ty =>
+      match ty with Some ty0 => ws (mkcb (new_id l) CCns (compile_ty ty0) :: G) t' | None => false end
+  | FGoto l t' _ => var_ok G l (fterm_type t') CCns && ws G t'
+  | FExit a _ => ws G a
+  | FParen t' => ws G t'
+  end.
+Definition ws_arg (G : list cbinding) (y : fterm) : bool :=
+  match y with
+  | FVar v ty (Some FCns) => var_ok G v ty CCns
+  | _ => ws G y
+  end.
+
+Definition disj (a b : list string) : bool := negb (inter_nonempty a b).
+Lemma disj_spec : forall a b, disj a b = true -> forall x, In x a -> In x b -> False.
+Proof.
+  intros a b H x Ha Hb. unfold disj, inter_nonempty in H. apply negb_true_iff in H.
+  assert (existsb (fun x0 => mem x0 b) a = true); [|congruence].
+  apply existsb_exists. exists x. split; [exact Ha | apply mem_In; exact Hb].
+Qed.
+
+(* the capture guard: wherever the translation places a continuation built from a term u under the
+   binders of a term t (let-bound term / case scrutinee / labelled term), the binders of t are
+   distinct from all names of u.  (Implied by the Barendregt condition on well-scoped definitions.) *)
+Fixpoint nocap (t : fterm) : bool :=
+  match t with
+  | FVar _ _ _ | FLit _ => true
+  | FOp a _ b => nocap a && nocap b
+  | FIfC _ a b t1 t2 _ => nocap a && (match b with Some b' => nocap b' | None => true end) && nocap t1 && nocap t2
+  | FPrint _ a next _ => nocap a && nocap next
+  | FLet v _ bound body _ => disj (bnd bound) (v :: nm body) && nocap bound && nocap body
+  | FCall _ args _ => forallb nocap args
+  | FCtor _ args _ => forallb nocap args
+  | FDtor scrut _ _ args _ => disj (bnd scrut) (flat_map nm args) && nocap scrut && forallb nocap args
+  | FCase scrut _ cls _ =>
+      disj (bnd scrut) (flat_map cl_nm cls) && nocap scrut
+      && forallb (fun c => match c with FClause _ _ _ _ body => nocap body end) cls
+  | FNew cls _ => forallb (fun c => match c with FClause _ _ _ _ body => nocap body end) cls
+  | FLabel l t' _ => negb (mem l (bnd t')) && nocap t'
+  | FGoto l t' _ => negb (mem l (bnd t')) && nocap t'
+  | FExit a _ => nocap a
+  | FParen t' => nocap t'
+  end.
+
+Section Frag.
+  Variable p : fcprog.
+  Definition data_ty (ty : option fty) : bool :=
+    match ty with Some t => negb (f_is_codata p t) | None => false end.
+
+  (* the fragment for which the simulation is proved: everything except codata (new, destructor
+     calls, codata-typed let-bindings and arguments: the by-name part of the language) and calls of
+     `main` (mis-translated, see the finding call-to-main) *)
+  Fixpoint frag (t : fterm) : bool :=
+    let arg_ok := fun (y : fterm) =>
+      match y with
+      | FVar _ _ (Some FCns) => true
+      | _ => frag y && data_ty (fterm_type y)
+      end in
+    match t with
+    | FVar _ _ _ | FLit _ => true
+    | FOp a _ b => frag a && frag b
+    | FIfC _ a b t1 t2 _ => frag a && (match b with Some b' => frag b' | None => true end) && frag t1 && frag t2
+    | FPrint _ a next _ => frag a && frag next
+    | FLet _ vty bound body _ => negb (f_is_codata p vty) && frag bound && frag body
+    | FCall f args _ => negb (String.eqb f "main") && forallb arg_ok args
+    | FCtor _ args _ => forallb arg_ok args
+    | FCase scrut _ cls _ =>
+        frag scrut
+        && forallb (fun c => match c with FClause _ _ names ctx body =>
+                                list_eqb String.eqb names (fvars ctx) && frag body end) cls
+    | FLabel _ t' ty => data_ty ty && frag t'
+    | FGoto _ t' _ => frag t'
+    | FExit a _ => frag a
+    | FParen t' => frag t'
+    | FDtor _ _ _ _ _ | FNew _ _ => false
+    end.
+  Definition arg_ok (y : fterm) : bool :=
+    match y with
+    | FVar _ _ (Some FCns) => true
+    | _ => frag y && data_ty (fterm_type y)
+    end.
+
+  Definition codata_of : list ctydecl := map compile_codata (fcpcodata p).
+  Lemma ty_is_codata_compile : forall ty, ty_is_codata codata_of (compile_ty ty) = f_is_codata p ty.
+  Proof.
+    intros ty. destruct ty as [|n targs]; [reflexivity|].
+    unfold compile_ty, ty_is_codata, f_is_codata, codata_of.
+    induction (fcpcodata p) as [|d r IH]; [reflexivity|].
+    cbn [map existsb]. rewrite IH. f_equal. unfold compile_codata. cbn [ctname]. apply cid_eqb_new_id.
+  Qed.
+End Frag.
